@@ -277,7 +277,13 @@ PROPS["C14"] = {
             "out-of-range sizes, off-curve points, mismatched halves, below-minimum-strength keys) plus random bytes and random JSON, "
             "through keyset.Validate, insecurecleartextkeyset.Read, NewHandleWithNoSecrets, the binary and JSON readers; Go accept/reject "
             "vs the Lean model (per-key parser verdict passed as an oracle bit); every accepted handle is used with every factory under "
-            "recover and checked for self-consistency; non-trivial = keysets with ≥1 key, distinct by line hash",
+            "recover and checked for self-consistency; systematic length mutations (extend by 1 / by a leading zero / by 32, double, "
+            "truncate by 1 / to half, empty) of every bytes field of every key proto (private keys, their embedded public keys, "
+            "public-only keysets) as single-key keysets and inside multi-key keysets, and the same mutations through the key-level "
+            "New*Key constructors; public-only handles are used with well-formed inputs (verifiers: what the untouched private twin "
+            "signs + random strings of every signature length under every prefix; encrypters: ciphertext opened by the private twin; "
+            "JWT verifiers likewise): an untouched key must accept its twin, a wrong-length key that is accepted must give a working "
+            "primitive, nothing may panic; non-trivial = keysets with ≥1 key, distinct by line hash",
     "trusted_base": [KERNEL, TIE, "per-type key parsers are an oracle bit of the model (parseOk); the harness obtains it from "
                      "protoserialization.ParseKey"],
     "assumptions": ["'never a panic' on the real code is explored (recover around every call), not proved; the theorem covers the structural gate"],
@@ -459,7 +465,10 @@ PROPS["C16"] = {
             "thorough), deterministic signatures byte-identical (f-sets), Go hedged signatures verify in the reference for varied messages "
             "(so tree/leaf indices and base-2^b digit patterns vary), mutations in every structural region (R, FORS secret/auth nodes, WOTS "
             "chains, XMSS auth paths), wrong length ±1, other key/message → both reject; internal toInt/toByte/base2b/digest split compared "
-            "through export hooks on random and boundary inputs; non-trivial = every line, distinct by line hash",
+            "through export hooks on random and boundary inputs; contexts of 256, 257, 511 and 512 bytes are refused by Sign, "
+            "SignDeterministic (all sets) and by Verify also when the signature is crafted to be genuine for each encoding a missing "
+            "length check could build (length byte wrapped / saturated, context cut to 255 or to the wrapped length, empty context over "
+            "ctx|M; f-sets quick, all sets thorough), the 255-byte context round-trips; non-trivial = every line, distinct by line hash",
     "trusted_base": [KERNEL, TIE, PRIMS],
     "assumptions": ["hashes are reference primitives; the FIPS 205 reference (Prim/Slhdsa.lean) is validated by the repo's KAT vectors "
                     "and agreement with Go on 3300 cross-check lines, not proved",
@@ -614,7 +623,10 @@ PROPS["C19"] = {
             "keyset read / write; proto keysets in and out) is run with every input placed inside a larger buffer with canaries before off, "
             "after len and through cap; afterwards all canaries and the input bytes are compared; then inputs and every returned slice are "
             "overwritten and the operation, Equal against a pristine copy, and primitives built before and after are repeated and must "
-            "give the same results; Go's append/copy/Concat semantics are compared with the heap model; non-trivial = every line, "
+            "give the same results; fallback proto keys (type URL without parser: unknown, or served by stub key managers incl. "
+            "PrivateKeyManagers) with every KeyMaterialType x prefix type through every handle constructor and every export path, where "
+            "additionally every field of the caller's / the exported proto keyset is reassigned; "
+            "Go's append/copy/Concat semantics are compared with the heap model; non-trivial = every line, "
             "distinct by line hash",
     "trusted_base": [KERNEL, TIE, "the regenerated slice facts come from a syntactic extractor (go/ast + go/types) over all non-test "
                      "packages: it sees direct uses of []byte parameters and their plain re-slices, not flows through other variables, "
